@@ -16,6 +16,7 @@ MACH_PROPS = ['C01', 'C02', 'C03', 'C04', 'C05', 'C06', 'C08', 'C09', 'C10', 'C1
 # which classes of model/implementation divergence untie which property (see classify())
 RELEVANCE = {
     'log':        {'C16'},
+    'attach':     {'C16'},      # any difference in the scenario that (de)attaches the logger in mid-run
     'snap:ST':    {'C16'},
     'snap:H':     {'C16'},
     'snap:PL':    {'C06', 'C14'},
@@ -56,6 +57,12 @@ METHOD_CLASS = {
 
 def classify(msg):
     """Divergence classes of a driver DIVERGE message."""
+    if msg.endswith(' [logger-sweep]'):
+        return sorted(set(_classify(msg[:-len(' [logger-sweep]')]) + ['attach']))
+    return _classify(msg)
+
+
+def _classify(msg):
     m = re.search(r'event#\d+ expected\(model\)=(\S+) got\(impl\)=(\S+)', msg)
     if m:
         a, b = m.group(1).split('_'), m.group(2).split('_')
@@ -234,6 +241,33 @@ def _trim(rej, per_tag=6):
     return out
 
 
+def _tag_logger_sweep(path, msgs):
+    """Mark the divergences that lie in the scenario in which the logger is detached / re-attached in mid-run
+    (harness sweepLogger): whatever differs there unties C16 ("attaching a logger never changes behaviour")."""
+    start = end = None
+    try:
+        scen_line = 0
+        with open(path, 'r', errors='replace') as f:
+            for k, line in enumerate(f, 1):
+                if line.startswith('scenario '):
+                    if start is not None and end is None:
+                        end = k
+                    scen_line = k
+                elif start is None and ' attachlogger ' in line and line.startswith('op '):
+                    start = scen_line
+    except OSError:
+        return msgs
+    if start is None:
+        return msgs
+    out = []
+    for m in msgs:
+        g = re.search(r'line=(\d+)', m)
+        if g and int(g.group(1)) >= start and (end is None or int(g.group(1)) < end):
+            m = m + ' [logger-sweep]'
+        out.append(m)
+    return out
+
+
 def _run(job):
     """Worker (own process): run one generated program, replay its transcript through the model, judge it."""
     idx, exe, seed, scen, ops, out, sweep, sexpr, cfg = job
@@ -241,6 +275,8 @@ def _run(job):
     p = V.run_limited([exe, str(seed), str(scen), str(ops), str(sweep)], out, timeout=600 if scen <= 30 else 2400)
     st, err = p.returncode, p.stderr
     ok, n, msgs = (False, 0, ['harness failed']) if st != 0 else V.run_driver_all('mach', out, timeout=3000)
+    if msgs and st == 0:
+        msgs = _tag_logger_sweep(out, msgs)
     rej, asserts, oracle_err = {}, {}, None
     stats = O.Stats()
     try:
